@@ -158,6 +158,27 @@ def run_case(case):
             except Exception:  # noqa
                 pass
     out["typed"] = {k: v for k, v in sorted(ftypes.items())}
+    # consequence clause of the property: rewriting a power of a finitely typed variable through its value set must give a
+    # polynomial that agrees with the power on every value of the set (checked on the Finite objects the analysis will use)
+    pr_problems = []
+    try:
+        from symengine.lib.symengine_wrapper import sympify as _sy
+        for v, t in program.typedefs.items():
+            if not isinstance(t, Finite):
+                continue
+            vals = list(t.values)
+            for pw in range(0, len(vals) + 3):
+                red = _sy(t.reduce_power(pw))
+                for val in vals:
+                    lhs = red.subs({t.variable: val}) if hasattr(red, "subs") else red
+                    if (_sy(lhs) - _sy(val) ** pw).expand() != 0:
+                        pr_problems.append({"var": str(v), "power": pw, "value": str(val), "reduced": str(red), "values": sorted(map(str, vals))})
+                        break
+                if pr_problems and pr_problems[-1]["var"] == str(v):
+                    break
+    except Exception as e:  # noqa
+        out["notes"].append(f"power-reduction oracle not applicable: {type(e).__name__}")
+    out["power_reductions_checked"] = True
     out["normalized"] = str(program)
     kinds = {"old": 0, "alias": 0, "r": 0, "t": 0, "c": 0, "orig": 0}
     for k in ftypes:
@@ -301,6 +322,11 @@ def run_case(case):
     if confirmed:
         out["outcome"] = "violation"
         out["problems"] = confirmed[:8]
+    if pr_problems:
+        out["outcome"] = "violation"
+        out["problems"] = [dict(p, kind="power-reduction", via_default=False, source_guard_false=False, default_is_other_var=False,
+                                assignment="(power reduction)", type=p["values"], phase="typing", iteration=-1, exact_value=None)
+                           for p in pr_problems[:3]] + out.get("problems", [])
     return out
 
 
